@@ -113,7 +113,7 @@ func runWorker(sp *spec, bin string, j workerJob) (*result, error) {
 			Counters: map[string]int64{}, MaxBound: map[string]int{}}, nil
 	}
 	if rerr != nil {
-		return nil, fmt.Errorf("worker produced no result (%v): %v\n%s", rerr, err, tail(outb, 6000))
+		return nil, fmt.Errorf("worker produced no result (%v): %v\n%s\n[...]\n%s", rerr, err, firstN(string(outb), 2500), tail(outb, 2500))
 	}
 	var r result
 	if uerr := json.Unmarshal(b, &r); uerr != nil {
